@@ -1364,6 +1364,17 @@ func (s *sink) handleRetryBatches(
 			return
 		}
 
+		// A batch that was written (canFailFromLoadErrs is cleared when the
+		// request is serialized) and is retried WITHOUT a response - the
+		// request died client side - may have been appended by the broker
+		// with only the acknowledgement lost. A later retriable error code
+		// for the retry says nothing about that earlier attempt, so the
+		// batch is poisoned exactly like a REQUEST_TIMED_OUT response: it
+		// must not be failed from retry or timeout limits.
+		if !canFail && !batch.canFailFromLoadErrs {
+			batch.unsureIfProduced = true
+		}
+
 		if (canFail && !batch.unsureIfProduced) || s.cl.cfg.disableIdempotency || s.cl.cfg.allowIdempotentProduceCancellation {
 			if err := batch.maybeFailErr(&s.cl.cfg); err != nil {
 				batch.owner.failAllRecords(err)
